@@ -479,10 +479,11 @@ func (it *k4interp) opaque(fr *k4frame, v ssa.Value) (k4val, error) {
 	if !ok {
 		return k4val{}, fmt.Errorf("cannot name value %s (%T)", v.Name(), v)
 	}
-	if _, isCall := v.(*ssa.Call); isCall {
+	r, err := it.lookup(k, v.Type())
+	if _, isCall := v.(*ssa.Call); isCall && err == nil {
 		it.calls = append(it.calls, k)
 	}
-	return it.lookup(k, v.Type())
+	return r, err
 }
 
 var nil0 types.Type = types.Typ[types.Float64]
@@ -1022,7 +1023,7 @@ func missingList(m *Model) string {
 // nativeMath evaluates pure math functions on numeric arguments.
 func (it *k4interp) nativeMath(fr *k4frame, x *ssa.Call, name string) (k4val, bool, error) {
 	switch name {
-	case "math.Sqrt", "math.Abs", "math.IsNaN", "math.Max", "math.Min", "math.IsInf", "math.Floor", "math.Ceil", "math.Round", "math.Pow10":
+	case "math.Sqrt", "math.Abs", "math.IsNaN", "math.Max", "math.Min", "math.IsInf", "math.Floor", "math.Ceil", "math.Round", "math.Pow10", "math.Inf":
 	default:
 		return k4val{}, false, nil
 	}
@@ -1040,6 +1041,8 @@ func (it *k4interp) nativeMath(fr *k4frame, x *ssa.Call, name string) (k4val, bo
 	switch name {
 	case "math.Pow10":
 		return k4val{kind: 2, f: math.Pow10(int(fs[0]))}, true, nil
+	case "math.Inf":
+		return k4val{kind: 2, f: math.Inf(int(fs[0]))}, true, nil
 	case "math.Sqrt":
 		return k4val{kind: 2, f: math.Sqrt(fs[0])}, true, nil
 	case "math.Abs":
@@ -1175,3 +1178,5 @@ func (it *k4interp) sliceContents(fr *k4frame, x *ssa.Slice) (string, bool) {
 	}
 	return "[" + strings.Join(parts, "|") + "]", true
 }
+
+var boolT types.Type = types.Typ[types.Bool]
